@@ -22,6 +22,7 @@ type SimChain struct {
 	fork         int
 	Swaps        map[string]*SwapOutput // "txid:vout" -> registered swap output
 	stalled      bool
+	History      []chainSnap // chain state after every change (component sims)
 	minedAt      []time.Duration
 	subs         []headerSub
 	byScriptHash map[string][]string // electrum script hash -> txids paying to it
@@ -199,6 +200,7 @@ func (c *SimChain) Mine(n int) {
 		c.blocks = append(c.blocks, &Block{Hash: c.mkHash(h, txs), Height: h, Txs: txs})
 		c.minedAt = append(c.minedAt, c.w.Sim.Now())
 	}
+	c.snapshot()
 	c.w.Observe(&Obs{Node: -1, Kind: "block", Str: c.Name, Num: int64(c.Height())})
 	c.notifyHeaders()
 }
